@@ -183,18 +183,11 @@ class M(Model):
     def complete(self, s, ts):
         out = []
         b = np.asarray(s.board)
-        full = bool((b != -1).all())
-        if full:
-            if not is_solved(b):
-                out.append(("episode completed with a full but invalid board", str(b.tolist())))
-            if float(ts.reward) != 1.0:
-                out.append(("board solved but reward != 1", f"reward={float(ts.reward)}"))
-        else:
-            # documented other ending: dead end (no legal action left)
-            if legal_mask(b).any():
-                out.append(("episode ended although legal actions remain", str(b.tolist())))
-            if float(ts.reward) != 0.0:
-                out.append(("reward without a solved board", f"reward={float(ts.reward)}"))
+        # audit: C06 only says a *completed* episode holds a complete feasible solution; the reward of the last step
+        # and "ended while legal actions remain" are reward / termination rules (C09 predicts both) - removed here.
+        # A board that is not full ended by the documented dead end: nothing to assert.
+        if bool((b != -1).all()) and not is_solved(b):
+            out.append(("episode completed with a full but invalid board", str(b.tolist())))
         return out
 
     # ---- C09
@@ -229,9 +222,7 @@ class M(Model):
         if dup.size:
             out.append(("database board with a digit repeated in a row, column or box",
                         f"{dup.size} boards, first index {int(dup[0])}: {(db[dup[0]] + 1).tolist()}"))
-        full = np.flatnonzero((db != -1).all(axis=(1, 2)))
-        if full.size:
-            out.append(("database board without an empty cell", f"{full.size} boards, first index {int(full[0])}"))
+        # audit: "every puzzle has an empty cell" is not an invariant C10 lists (puzzles are conflict-free) - removed
         return out, int(db.shape[0])
 
     def c10_extra(self, ctx):
@@ -256,10 +247,7 @@ class M(Model):
             out.append(("board value outside -1..8", str(b.tolist())))
         if duplicates(b):
             out.append(("puzzle has a digit repeated in a row, column or box", str(b.tolist())))
-        if (b != -1).all():
-            out.append(("puzzle has no empty cell", ""))
-        if not np.array_equal(np.asarray(s0.action_mask).astype(bool), legal_mask(b)):
-            out.append(("initial action_mask differs from the rules", ""))
+        # audit: "has an empty cell" is not a listed invariant, and the reset mask is judged by C04 - not asserted here
         return out
 
     # ---- C12
